@@ -2,10 +2,29 @@
 
 package keys
 
-// VerifPurgeKeyCache empties the process-wide cache of decoded public keys.
-// The verification harness runs many simulated nodes in one process; purging
-// the cache stands for a node whose process has just been started (or whose
-// cache has evicted everything), which must not change any result.
+import lru "github.com/hashicorp/golang-lru/v2"
+
+// VerifKeyCache is the type of the process-wide cache of decoded public keys.
+type VerifKeyCache = lru.Cache[string, *PublicKey]
+
+// VerifNewKeyCache returns a new empty key cache.
+func VerifNewKeyCache() *VerifKeyCache {
+	c, _ := lru.New[string, *PublicKey](1024)
+	return c
+}
+
+// VerifSetKeyCache installs c as the process-wide key cache and returns the
+// one used so far. The verification harness runs many simulated nodes in one
+// process; it gives every node (and every restart of a node) a cache of its
+// own, installed while that node's code runs, so that the cache's content
+// depends on what that node has seen - as it does in a process of its own.
+func VerifSetKeyCache(c *VerifKeyCache) *VerifKeyCache {
+	old := keycache
+	keycache = c
+	return old
+}
+
+// VerifPurgeKeyCache empties the current key cache.
 func VerifPurgeKeyCache() {
 	keycache.Purge()
 }
